@@ -1,12 +1,23 @@
 #!/bin/sh
 # usage: check.sh <property id> [quick|thorough]
-# Rebuilds the verifier if needed, regenerates every obligation of the property from /repo's
-# current working tree (build tag verif) and discharges them with z3 / z3-new / cvc5.
+# Rebuilds the verifier if needed, regenerates every obligation of the property from /repo's current working tree
+# (build tag verif) and discharges them with z3 / z3-new / cvc5.  Thorough: longer time-outs, all three solvers on every
+# obligation, a cover for every return path, and the must-fail self-test (seeded changes of this property applied to a
+# scratch worktree of /repo's HEAD, never to /repo), whose outcome is recorded in the evidence.
 set -u
 PROP="$1"; TIER="${2:-quick}"
+[ "${VERIF_TIER:-}" = "quick" ] && TIER=quick
+[ "${VERIF_TIER:-}" = "thorough" ] && TIER=thorough
 export GOFLAGS=-mod=mod GOPROXY=off GOSUMDB=off GOTOOLCHAIN=local CGO_ENABLED=0
 cd /verif || exit 2
 if [ ! -x /verif/bin/govc ] || [ -n "$(find /verif/govc -name '*.go' -newer /verif/bin/govc 2>/dev/null | head -1)" ]; then
   (cd /verif/govc && go build -o /verif/bin/govc .) || { echo "govc build failed"; exit 2; }
+fi
+if [ "$TIER" = "thorough" ]; then
+  ST=$(mktemp /tmp/govc-selftest-XXXXXX.json)
+  /verif/seeded/selftest.sh "$PROP" "$ST" >/dev/null 2>&1
+  GOVC_SELFTEST="$ST" /verif/bin/govc check -prop "$PROP" -tier "$TIER"; RC=$?
+  rm -f "$ST"
+  exit $RC
 fi
 exec /verif/bin/govc check -prop "$PROP" -tier "$TIER"
